@@ -288,7 +288,10 @@ def run_conc(d, args, tag, harness=H, timeout=300):
 STALL_ARGS = (6, 500, 3)   # healthy subscribers, write deadline of Send in ms (hook H5), rounds
 
 
-def run_stall_once(d, args, tag):
+RETIRE_ARGS = (300, 8)     # write deadline of Send in ms (hook H5), rounds
+
+
+def run_stall_once(d, args, tag, sub="stall"):
     """One run of `harness_pubsub stall`.  Returns (status, info): status OK | SUSPECT | SLOW.
     The verdict per round is the model's (pubsubrun seq): both PUBLISH replies = k, every healthy
     subscriber received m1 and m2.  A round that fails is SUSPECT unless every failed write to a
@@ -296,12 +299,12 @@ def run_stall_once(d, args, tag):
     deadline for it (remaining >= D/2) and at least D/2 elapsed between setting the deadline and the
     failure.  A write that fails at once, or with a deadline that had expired when it was set, is the
     server's fault whatever the load of the machine."""
-    k, dms, rounds = args
+    dms, rounds = args[-2], args[-1]
     trace, diag, ver = d / (tag + ".trace"), d / (tag + ".diag"), d / (tag + ".verdict")
     for f in (trace, diag, ver):
         if f.exists():
             f.unlink()
-    rc, log = lib.sh("%s stall %d %d %d %s %s" % (lib.BUILD / H, k, dms, rounds, trace, diag), cwd=d, timeout=120 + rounds * 30)
+    rc, log = lib.sh("%s %s %s %s %s" % (lib.BUILD / H, sub, " ".join(str(a) for a in args), trace, diag), cwd=d, timeout=120 + rounds * 30)
     if rc != 0 or not trace.exists():
         return "SUSPECT", dict(round="?", verdict="CRASH", detail="harness rc=%s: %s" % (rc, tail_of_go_failure(log)), program=[], writes=[])
     rc2, log2 = lib.sh("%s seq %s %s" % (lib.BUILD / RUNNER, trace, ver), cwd=d, timeout=120)
@@ -335,11 +338,13 @@ def run_stall_once(d, args, tag):
     return ("SLOW", slow) if slow else ("OK", dict(rounds=len(progs)))
 
 
-def run_stall(d, args):
-    """SUSPECT must be seen twice to be reported; SLOW (machine too loaded to tell) is retried."""
+def run_stall(d, args, sub="stall"):
+    """SUSPECT must be seen twice to be reported; SLOW (machine too loaded to tell) is retried.
+    sub="retire": the SUBSCRIBE-during-a-pruning-PUBLISH scenario (args = deadline ms, rounds), same
+    trace/diag format and the same judgement."""
     suspects, last = 0, None
     for attempt in range(4):
-        st, info = run_stall_once(d, args, "stall%d" % attempt)
+        st, info = run_stall_once(d, args, "%s%d" % (sub, attempt), sub=sub)
         if st == "OK" and suspects == 0:
             return "OK", dict(attempts=attempt + 1, **info)
         if st == "SUSPECT":
@@ -387,9 +392,9 @@ def replay(ctx, d):
         for f in findings[:5]:
             print("  ", f)
         return 1 if findings else 0
-    if r.get("kind") == "stall":
-        st, info = run_stall(d, tuple(r["args"]))
-        print("stalled-subscriber scenario (healthy subscribers, deadline ms, rounds) =", r["args"], "->", st)
+    if r.get("kind") in ("stall", "retire"):
+        st, info = run_stall(d, tuple(r["args"]), sub=r["kind"])
+        print("%s scenario %s =" % (r["kind"], "(healthy subscribers, deadline ms, rounds)" if r["kind"] == "stall" else "(deadline ms, rounds)"), r["args"], "->", st)
         if st != "OK":
             print("   round", info.get("round"), info.get("verdict"), info.get("detail", "")[:1500])
             for w in info.get("writes", []):
@@ -442,6 +447,7 @@ def run(ctx):
     seq_stats = dict(cases=0, ops=0, replies=0, pushes=0, nontrivial=0)
     conc_stats = []
     stall_info = {}
+    retire_info = {}
     samples = []
     if built:
         # ---- (T) lock obligation
@@ -501,6 +507,20 @@ def run(ctx):
                                         note="connection 1 subscribed and never reads; connections 2.. read all the time; Send's write deadline = %d ms (hook H5). After PUBLISH every healthy subscriber must have the message and still be subscribed (second PUBLISH reaches them, both replies = number of healthy subscribers). failed_writes: remaining_ms = time the server allowed for the write when it set the deadline, gap_ms/dur_ms = time that actually passed: a write failing with (almost) no time allowed or passed is not a slow machine." % sargs[1]))
                 ctx.violations += 1
                 rc = 1
+        # ---- a SUBSCRIBE that arrives while a PUBLISH is dropping the channel's last subscriber
+        if rc == 0:
+            rargs = RETIRE_ARGS if not thorough else (400, 36)
+            st, retire_info = run_stall(d, rargs, sub="retire")
+            retire_info["args"] = list(rargs)
+            if st != "OK":
+                lib.violation(PID, dict(kind="retire", theorem="C19_atomic_ops_linearizable + C19_delivery_exact / C19_publish_count on either order of the two overlapping commands",
+                                        args=list(rargs), program=retire_info.get("program"),
+                                        readable=describe_ops(["CASE s"] + retire_info.get("program", []) + ["END"]),
+                                        verdict=retire_info.get("verdict"), detail=retire_info.get("detail"),
+                                        failed_writes_to_healthy_subscribers=retire_info.get("writes"), **extra,
+                                        note="connection 1 is the only subscriber and never reads; connection 3's first PUBLISH blocks in Send until the write deadline (%d ms, hook H5) and drops it; connection 2's SUBSCRIBE is sent during that window (a different fraction of the deadline each round). The program lists the two overlapping commands in the order shown by the first PUBLISH reply (both orders are legal). Afterwards PUBLISH hello must reach connection 2 and reply 1: a connection that has its confirmation but is not reached is a lost subscription." % rargs[0]))
+                ctx.violations += 1
+                rc = 1
         # ---- (V) concurrent runs
         if rc == 0:
             runs = [(ctx.seed, 4, 5, 1500, 3, 1, 60), (ctx.seed + 1, 6, 6, 1200, 2, 0, 60), (ctx.seed + 2, 3, 8, 2500, 1, 1, 60)]
@@ -551,7 +571,7 @@ def run(ctx):
         evaluations=seq_stats["ops"] + sum(s["publishes"] for s in conc_stats),
         distinct_nontrivial=seq_stats["nontrivial"],
         rule="sequential: 10 fixed programs (repeated SUBSCRIBE, client gone, dead connection, framing, retire/re-create a channel…) + seeded random programs of 3-28 operations (SUBSCRIBE of 1-3 channels, PUBLISH, API-level UnSubscribe, client close, server-side kill) over 2-5 connections and 1-3 channels with names/payloads containing CR LF NUL 0xff, RESP look-alikes, empty and long (to 70 kB) byte strings; a program counts as non-trivial when it subscribes, publishes and at least one message push was delivered and compared; evaluations = operations executed sequentially + PUBLISH commands of the concurrent runs",
-        sequential=seq_stats, stalled_subscriber=stall_info, concurrent=conc_stats, samples=samples or ["(none)"],
+        sequential=seq_stats, stalled_subscriber=stall_info, subscribe_during_pruning_publish=retire_info, concurrent=conc_stats, samples=samples or ["(none)"],
         correspondence="bytes received on every connection (real TCP, server.Manager.Handle from the working tree) decoded by extracted decode_stream and compared by extracted observed_match with outq of the extracted model",
     ))
     lib.write_evidence(PID, ctx.tier, ctx.seed, cov,
